@@ -526,3 +526,57 @@ def mon_fault_body(case):
                     if t not in PLATFORM_TYPES and t not in initerr_this_gen:
                         out.append(f"step {i+1}: caller {c}: fault answered with error type {t}, which is neither a platform fault type nor reported by the runtime in this generation")
     return out
+
+
+def mon_restore(case):
+    """C18: restore succeeds only after the parked runtime asked for next; credentials only for the token,
+    reflecting the latest restore; no key material in a snapshot-mode environment."""
+    out = []
+    snap = cfg(case).get("snapshot") == "1"
+    if not snap:
+        return out
+    key = "AKIDEXAMPLE"
+    polled = False          # runtime is parked in (or has passed) its restore poll
+    restore_pending_step = None
+    next_after_restore = False
+    for i, (ws, obs, side) in enumerate(case["steps"]):
+        es = entries(obs)
+        bl = blocked(obs)
+        for x in side:
+            m = re.match(r"envkeys (\S+) AKID=(\d) SECRET=(\d) SESSION=(\d) TOKEN=(\d) URI=(\d)", x)
+            if m and m.group(1).startswith("runtime-"):
+                if m.group(2) != "0" or m.group(3) != "0" or m.group(4) != "0":
+                    out.append(f"step {i+1}: key material placed in the environment of {m.group(1)} in snapshot mode")
+                if m.group(5) != "1" or m.group(6) != "1":
+                    out.append(f"step {i+1}: credentials token / URI missing from the environment of {m.group(1)}")
+        for e in es:
+            if e.startswith("sup exec:runtime-"):
+                polled = False
+        if ws[0] == "rt" and ws[1] == "restorenext":
+            polled = "rt.restorenext" in bl
+        if ws[0] == "restore":
+            restore_pending_step = i
+            next_after_restore = False
+            was_parked = polled
+            if len(ws) > 2:
+                newkey = ws[2]
+            else:
+                newkey = "AKIDRESTORED"
+            key = newkey
+        if ws[0] == "rt" and ws[1] == "next" and restore_pending_step is not None:
+            next_after_restore = True
+        for e in es:
+            if e.startswith("restore done err=ok") and restore_pending_step is not None:
+                if was_parked and not next_after_restore:
+                    out.append(f"step {i+1}: restore reported success although the runtime, parked on its restore poll, had not asked for next")
+                restore_pending_step = None
+            elif e.startswith("restore done"):
+                restore_pending_step = None
+            m = re.match(r"rt\.creds:(\S*)=(\d+)(?:,key=(\S+))?", e)
+            if m:
+                tok, st, k = m.groups()
+                if tok != "good" and st == "200":
+                    out.append(f"step {i+1}: credentials served for token '{tok}'")
+                if tok == "good" and st == "200" and k != key:
+                    out.append(f"step {i+1}: credentials served are {k}, the most recent restore supplied {key}")
+    return out
